@@ -4,6 +4,7 @@ from fractions import Fraction
 from harness.core import *
 from harness import gen
 from harness.props._sp_util import *
+from harness.props import _c02_tol
 
 PID = "C02"
 LEVEL = "proof"
@@ -22,7 +23,7 @@ CF.update({
     "ntrop": CheckFn("newton-trop", "Model.Newton", "newton_check_trop", Tup(GrammarT, List(Tup(Nat, List(TropV))), Nat, NOBS["trop"])),
     "nbool": CheckFn("newton-bool", "Model.Newton", "newton_check_bool", Tup(GrammarT, List(Tup(Nat, List(Bool))), Nat, NOBS["bool"])),
 })
-CHECKFNS = list(CF.values())
+CHECKFNS = list(CF.values()) + _c02_tol.CHECKFNS
 ASSUMPTIONS = [
     "Real/Log values are judged against a certified enclosure [lo, u] of the least fixed point computed in exact rational arithmetic: lo = K rounded-down Kleene steps, u = inflated lo verified to be a pre-fixed point (Park); grammars for which no enclosure is found (near-critical or divergent) are discarded and counted",
     "only the direction 'budget exhausted => warning' is checked (the property does not forbid extra warnings)",
@@ -293,7 +294,9 @@ def run(tier, seed):
     s0 = meta["real"][0] if meta["real"] else None
     ncov = newton_stream(tier, seed, violations)
     total += ncov["evaluations"]; nk += ncov["kernel_reevaluated"]
-    cov = dict(evaluations=total, distinct_nontrivial=len(distinct) + ncov["distinct_nontrivial"] + lcov["distinct_nontrivial"], newton_stream=ncov, linear_system_stream=lcov,
+    tcov = _c02_tol.stream(tier, seed, violations)
+    total += tcov["evaluations"]; nk += tcov["kernel_reevaluated"]
+    cov = dict(evaluations=total, distinct_nontrivial=len(distinct) + ncov["distinct_nontrivial"] + lcov["distinct_nontrivial"] + tcov["distinct_nontrivial"], newton_stream=ncov, tolerance_ladder_stream=tcov, linear_system_stream=lcov,
                rule="main stream: random recursive FGG specs (self-loops, mutually recursive SCCs, linear/non-linear recursion, weight-one cycles in Viterbi/Bool; Real/Log weights damped by 1/4; one sixth chain grammars with deep best derivations; half with sparse PatternedTensor weights where the values allow; a fifth built in two stages with a query in between) x {Real, Log, Viterbi, Bool} x method rotating over fixed-point/newton/linear; one third of the runs with budget kmax in {1,2} (warning expected when the first kmax+1 stopping tests provably fail), the rest with kmax=400 (values judged against the certified enclosure); all grammars are recursive hence non-trivial; distinct by spec. Linear-system stream (gen.linear_system_spec): linearly recursive systems of 2-3 nonterminals, at least two of them NON-scalar (arity 1-2 over domains of size 1-3, different node labels => rectangular Jacobian blocks), self-loops on a random subset (diagonal blocks with off-diagonal entries), usually one SCC through all of them (multi_solve eliminates block by block: solves with a matrix right-hand side), otherwise block-triangular; dense blocks with about 30-80% exact zeros (mixed zero/non-zero rows and columns, whole zero rows), diagonal blocks (D(u) X(u)), arity-2 blocks T (x) I, two rules for one block, and half of the systems 'functional' (partial permutations inside a nonterminal, one or two entry points between nonterminals, one or two terminating cells: unique derivations, so a lost Jacobian entry shows in Bool/Viterbi too); shuffled rule order and label positions (all elimination orders) x {Real, Log: one of linear/newton/fixed-point rotating; Viterbi, Bool: linear AND newton} x dense/patterned weights x node-id styles, one seventh built in two stages; kmax=400, values judged against the certified enclosure; distinct by (spec, semiring, method). Newton stream: additionally non-linear variants of these systems (one rule with two component edges) so that Newton's inner multi_solve eliminates matrix blocks",
                case_kinds=kinds, value_checks_conclusive=conclusive, value_checks_inconclusive_discarded=inconclusive,
                feature_histogram=feats, kernel_reevaluated=nk, kleene_steps=K_ENCL,
